@@ -564,7 +564,10 @@ def getinputmode(data: bytes) -> int:
                 b"\x06\x01",
                 b"\x06\x02",
                 b"\x06\x31",
-            )  # CFG-PRT, CFG-MSG, CFG-INF, CFG-TP5
+                b"\x0b\x30",
+                b"\x0b\x31",
+                b"\x0b\x33",
+            )  # CFG-PRT, CFG-MSG, CFG-INF, CFG-TP5, AID-ALM, AID-EPH, AID-AOP
             and len(data) <= 10
         )
     ):
